@@ -1,6 +1,7 @@
 import YaqsModel.Basic.Parse
 import YaqsModel.Model.Trotter
 import YaqsModel.Model.MpoConv
+import YaqsModel.Model.TrotterHubbard
 /-! line protocol for the model library (C07); see `harness/impl/C07.py` for the request grammar -/
 open Yaqs Yaqs.Trotter
 
@@ -394,9 +395,87 @@ def handleMpo (line : String) : Option String :=
       | none => "bad-op")
   | _ => none
 
+/-! ## Fermi–Hubbard generators and Jordan–Wigner terms (extension xh07 of C07; model `Model/TrotterHubbard.lean`)
+
+  request grammar
+    fhgens 1d L n | u t mu dt        → generators of one sub-step of `create_1d_fermi_hubbard_circuit` in circuit order: `c STRING ; …`
+    fhgens 2d Lx Ly n | u t mu dt    → the same for `create_2d_fermi_hubbard_circuit`
+    fhmerged 1d L n | u t mu dt      → one entry per distinct Pauli string (sorted by string) with the sum of its coefficients
+    fhmerged 2d Lx Ly n | u t mu dt
+    fhterms 1d L | u t mu            → the Jordan–Wigner Pauli terms of the documented Hamiltonian, merged and sorted
+    fhterms 2d Lx Ly | u t mu
+    hopgens L i j | alpha            → generators of the block `add_hopping_term(circ, i, j, alpha)` appends (`IndexError` if `i ≥ j`)
+    lrigen L i j P | alpha           → generator of the block of `add_long_range_interaction(∅, i, j, P, alpha)`
+    gategens L name q… | theta       → generators of one `p` / `cp` / rotation gate
+-/
+def opsStr (l : List Op) : String := String.join (l.map Op.toString)
+
+def showGens (gs : List (List Op × Rat)) : String :=
+  if gs.isEmpty then "empty" else joinWith " ; " (gs.map fun g => showRat g.2 ++ " " ++ opsStr g.1)
+
+def sortGens (gs : List (List Op × Rat)) : List (List Op × Rat) :=
+  (gs.toArray.qsort fun a b => opsStr a.1 < opsStr b.1).toList
+
+def parseGName? : String → Option GName
+  | "rx" => some .rx | "ry" => some .ry | "rz" => some .rz | "rxx" => some .rxx | "ryy" => some .ryy | "rzz" => some .rzz
+  | "p" => some .p | "cp" => some .cp | _ => none
+
+def handleHub (line : String) : Option String :=
+  match splitBar (words line) with
+  | [["fhgens", "1d", l, n], ps] =>
+    some (match l.toNat?, n.toNat?, parseAll? parseRat? ps with
+      | some l, some n, some [u, t, mu, dt] => showGens (fh1dGens l u t mu dt n)
+      | _, _, _ => "bad-op")
+  | [["fhgens", "2d", lx, ly, n], ps] =>
+    some (match lx.toNat?, ly.toNat?, n.toNat?, parseAll? parseRat? ps with
+      | some lx, some ly, some n, some [u, t, mu, dt] => showGens (fh2dGens lx ly u t mu dt n)
+      | _, _, _, _ => "bad-op")
+  | [["fhmerged", "1d", l, n], ps] =>
+    some (match l.toNat?, n.toNat?, parseAll? parseRat? ps with
+      | some l, some n, some [u, t, mu, dt] => showGens (sortGens (mergeGens (fh1dGens l u t mu dt n)))
+      | _, _, _ => "bad-op")
+  | [["fhmerged", "2d", lx, ly, n], ps] =>
+    some (match lx.toNat?, ly.toNat?, n.toNat?, parseAll? parseRat? ps with
+      | some lx, some ly, some n, some [u, t, mu, dt] => showGens (sortGens (mergeGens (fh2dGens lx ly u t mu dt n)))
+      | _, _, _, _ => "bad-op")
+  | [["fhterms", "1d", l], ps] =>
+    some (match l.toNat?, parseAll? parseRat? ps with
+      | some l, some [u, t, mu] => showGens (sortGens (mergeGens (hubbard1dTerms l u t mu)))
+      | _, _ => "bad-op")
+  | [["fhterms", "2d", lx, ly], ps] =>
+    some (match lx.toNat?, ly.toNat?, parseAll? parseRat? ps with
+      | some lx, some ly, some [u, t, mu] => showGens (sortGens (mergeGens (hubbard2dTerms lx ly u t mu)))
+      | _, _, _ => "bad-op")
+  | [["hopgens", l, i, j], [al]] =>
+    some (match l.toNat?, i.toNat?, j.toNat?, parseRat? al with
+      | some l, some i, some j, some al =>
+        (match addHopping [] i j al with
+          | .ok _ => showGens (hopGens l i j al)
+          | .error .index => "IndexError"
+          | .error .value => "ValueError")
+      | _, _, _, _ => "bad-op")
+  | [["lrigen", l, i, j, op], [al]] =>
+    some (match l.toNat?, i.toNat?, j.toNat?, parseRat? al with
+      | some l, some i, some j, some al =>
+        let outer := if op = "X" ∨ op = "x" then some true else if op = "Y" ∨ op = "y" then some false else none
+        (match addLongRange [] i j outer al, outer with
+          | .ok _, some isX => showGens [(hopString l i j (if isX then .X else .Y), rotCoeff al)]
+          | .ok _, none => "ValueError"
+          | .error .index, _ => "IndexError"
+          | .error .value, _ => "ValueError")
+      | _, _, _, _ => "bad-op")
+  | [("gategens" :: l :: nm :: qs), [th]] =>
+    some (match l.toNat?, parseGName? nm, parseAll? String.toNat? qs, parseRat? th with
+      | some l, some nm, some qs, some th => showGens (gateGens l ⟨nm, qs, .q th⟩)
+      | _, _, _, _ => "bad-op")
+  | _ => none
+
 def handleAll (line : String) : String :=
-  match handleMpo line with
+  match handleHub line with
   | some r => r
-  | none => handle line
+  | none =>
+    match handleMpo line with
+    | some r => r
+    | none => handle line
 
 def main : IO Unit := do lineLoop (← IO.getStdin) handleAll
